@@ -41,7 +41,7 @@ RECURSIVE SumC(_)
 SumC(S) == IF S = {} THEN EmptyC ELSE LET x == CHOOSE y \in S : TRUE IN x ++ SumC(S \ {x})
 
 \* package name -> directory: only the two package names of PkgNames occur
-DirOf(p) == IF p = "foo.v1" THEN "foo/v1" ELSE "bar/baz/v1"
+DirOf(p) == IF p = "foo.v1" THEN "foo/v1" ELSE IF p = ClashPkg THEN "qux/foo/v1" ELSE "bar/baz/v1"
 MainFile(p, f) == DirOf(p) \o "/" \o f \o ".j5s.proto"
 ProtoFileName(p, f) == DirOf(p) \o "/" \o f \o ".proto"
 OutFile(p, f, kind) == IF kind = "proto" THEN ProtoFileName(p, f) ELSE MainFile(p, f)
